@@ -599,6 +599,12 @@ class AtLeastKInARow(_KInARow):
                 implications.append(If(And([Not(sublist[0]), sublist[1]]), And(sublist[2:])))
             # Ending corner case
             implications.append(If(Not(sublists[-1][1]), Not(Or(sublists[-1][2:]))))
+            # A run that starts later within the last k-1 trials is too short as well, also
+            # when the trial of `sublists[-1][1]` belongs to an earlier run (which takes more
+            # than k+1 trials, i.e. more than one sublist)
+            if len(sublists) > 1:
+                for i in range(3, len(sublists[-1])):
+                    implications.append(If(Not(sublists[-1][i-1]), Not(sublists[-1][i])))
 
         (cnf, new_fresh) = block.cnf_fn(And(implications), backend_request.fresh)
 
